@@ -602,7 +602,7 @@ func runC09(ctx *vh.Ctx) error {
 	kinds := []string{"react", "wfstraggler", "errpath", "errpath", "optshare", "toollist", "pregel", "dag", "workflow", "chain", "nested", "checkpoint", "host"}
 	// after the opening the two call-option families are drawn twice as often as the others
 	pool := append(append([]string{}, kinds...), "optshare", "optshare", "optshare", "toollist", "toollist", "errpath", "errpath")
-	nOpt, nTL, nErr, nCb, nFl := 0, 0, 0, 0, 0
+	nOpt, nTL, nErr, nCb, nFl, nBM := 0, 0, 0, 0, 0, 0
 	// The families cbshare and inflight are dealt from a random stream of their OWN (a function of
 	// the seed only) and inserted between the cases of the main sequence, which therefore is the
 	// same sequence of cases whether or not they exist: first one cbshare case, the two big
@@ -615,13 +615,16 @@ func runC09(ctx *vh.Ctx) error {
 		if kind == "inflight" {
 			c = c09GenFlight(r, nFl, ctx.Thorough())
 			nFl++
+		} else if kind == "branchmix" {
+			c = c09GenBranchMix(r, nBM)
+			nBM++
 		} else {
 			c = c09GenCbShare(r, nCb)
 			nCb++
 		}
 		return c09EvaluateX(ctx, &c)
 	}
-	for _, k := range []string{"cbshare", "inflight", "inflight", "inflight", "inflight", "inflight", "inflight"} {
+	for _, k := range []string{"cbshare", "branchmix", "branchmix", "inflight", "inflight", "inflight", "inflight", "inflight", "inflight"} {
 		if !ctx.TimeLeft() {
 			break
 		}
@@ -633,6 +636,11 @@ func runC09(ctx *vh.Ctx) error {
 	for i := 0; i < n && ctx.TimeLeft(); i++ {
 		if i > 0 && i%7 == 0 {
 			if err := extra("cbshare"); err != nil {
+				return err
+			}
+		}
+		if i > 0 && i%9 == 4 {
+			if err := extra("branchmix"); err != nil {
 				return err
 			}
 		}
